@@ -58,8 +58,104 @@ fn id_of(rq: &tiny_http_rt::Request) -> Option<u64> {
     rq.url().strip_prefix("/r").and_then(|s| s.parse().ok())
 }
 
+/// The same run seen by the connection thread pool: labels of `Lts.Pool`.  A dispatch is the
+/// accept thread (`lib.rs:…`) taking the pool's lock and then either creating a worker or notifying
+/// one; `finish` (a connection's task ended) is not visible and is supplied by the acceptor before
+/// the worker's next locked block.
+pub fn pool_labels(rep: &sched::Report) -> String {
+    use std::collections::HashMap;
+    let mut widx: HashMap<usize, usize> = HashMap::new();
+    let mut accept: Option<usize> = None;
+    let mut n = 0;
+    for (tid, (name, _)) in rep.threads.iter().enumerate() {
+        if name.starts_with("task_pool.rs") {
+            widx.insert(tid, n);
+            n += 1;
+        } else if name.starts_with("lib.rs") && accept.is_none() {
+            accept = Some(tid);
+        }
+    }
+    let mut out: Vec<String> = vec![];
+    let mut last_t = 0u64;
+    let mut next_k = 0usize;
+    let mut cur: Option<usize> = None;
+    let mut in_wait: HashMap<usize, bool> = HashMap::new();
+    let mut emit = |out: &mut Vec<String>, t: u64, l: String, last_t: &mut u64| {
+        if t > *last_t {
+            out.push(format!("+{}", t - *last_t));
+            *last_t = t;
+        }
+        out.push(l);
+    };
+    for e in &rep.events {
+        if e.what == "drain" {
+            break;
+        }
+        let w: Vec<&str> = e.what.split(' ').collect();
+        let pool_site = |i: usize| w.get(i).map_or(false, |s| s.starts_with("task_pool.rs"));
+        let is_accept = Some(e.tid) == accept;
+        match w[0] {
+            "lock" if pool_site(1) && is_accept => {
+                cur = Some(next_k);
+                next_k += 1;
+            }
+            "spawn" if is_accept && w.get(2).map_or(false, |s| s.starts_with("task_pool.rs")) => {
+                if let Some(k) = cur.take() {
+                    emit(&mut out, e.t, format!("D{}:n", k), &mut last_t);
+                }
+            }
+            "notify_one" if pool_site(1) && is_accept => {
+                if let Some(k) = cur.take() {
+                    let woke = match w.get(2) {
+                        Some(x) if x.starts_with('t') => {
+                            let tid: usize = x[1..].parse().unwrap_or(usize::MAX);
+                            in_wait.insert(tid, false);
+                            widx.get(&tid).map(|c| c.to_string()).unwrap_or_else(|| "?".into())
+                        }
+                        _ => "-".to_string(),
+                    };
+                    emit(&mut out, e.t, format!("D{}:q{}", k, woke), &mut last_t);
+                }
+            }
+            "begin" => {
+                if let Some(&i) = widx.get(&e.tid) {
+                    emit(&mut out, e.t, format!("B{}", i), &mut last_t);
+                }
+            }
+            "lock" if pool_site(1) => {
+                if let Some(&i) = widx.get(&e.tid) {
+                    in_wait.insert(e.tid, false);
+                    emit(&mut out, e.t, format!("L{}", i), &mut last_t);
+                }
+            }
+            "wait" if pool_site(1) => {
+                in_wait.insert(e.tid, true);
+            }
+            "timer" => {
+                if let Some(&i) = widx.get(&e.tid) {
+                    if in_wait.get(&e.tid).cloned().unwrap_or(false) {
+                        in_wait.insert(e.tid, false);
+                        emit(&mut out, e.t, format!("T{}", i), &mut last_t);
+                    }
+                }
+            }
+            _ => {}
+        }
+    }
+    out.join(",")
+}
+
 pub fn run(id: usize, rng: &mut Rng) -> String {
-    let burst = rng.chance(1, 4);
+    run_kind(id, rng, false)
+}
+
+/// the pool's view of the same scenarios (`srvp`)
+pub fn run_pool(id: usize, rng: &mut Rng) -> String {
+    run_kind(id, rng, true)
+}
+
+fn run_kind(id: usize, rng: &mut Rng, pool_view: bool) -> String {
+    let burst = rng.chance(1, 4) || (pool_view && rng.chance(1, 2));
     let sc = if burst { gen_burst(rng) } else { ctl_queue::gen(rng) };
     let cfg = Config { seed: rng.next(), p_timer: *rng.pick(&[0u64, 0, 30, 200]), max_steps: 2_000_000, ..Config::default() };
     let hist: Arc<StdMutex<Vec<Vec<String>>>> = Arc::new(StdMutex::new(sc.cons.iter().map(|_| vec![]).collect()));
@@ -67,7 +163,7 @@ pub fn run(id: usize, rng: &mut Rng) -> String {
     let prods = sc.prods.clone();
     let cons = sc.cons.clone();
     let n_unblock: usize = sc.prods.iter().map(|p| p.iter().filter(|o| matches!(o, POp::Unblock)).count()).sum();
-    let ((left, blocked, quiet), rep) = sched::run(&cfg, move || {
+    let ((left, blocked, quiet, live_end), rep) = sched::run(&cfg, move || {
         let server = Arc::new(Server::http("127.0.0.1:0").expect("server"));
         let addr = server.server_addr().to_ip().unwrap();
         // connections stay open until the end of the scenario
@@ -83,8 +179,9 @@ pub fn run(id: usize, rng: &mut Rng) -> String {
                         COp::Pop => {
                             sched::log("call pop");
                             h.lock().unwrap()[ci].push(format!("pop:{}:-:blocked", t0));
-                            let r = server.recv();
-                            ("pop".into(), Some(finish(r.ok())))
+                            // the two blocking forms: `recv()` and the iterator (which is `recv().ok()`)
+                            let r = if (t0 / 1000 + ci as u64) % 2 == 0 { server.recv().ok() } else { server.incoming_requests().next() };
+                            ("pop".into(), Some(finish(r)))
                         }
                         COp::Try => {
                             sched::log("call try");
@@ -168,9 +265,40 @@ pub fn run(id: usize, rng: &mut Rng) -> String {
         if n_unblock > 0 || !blocked.is_empty() {
             left.push("?".into());
         }
-        (left, blocked, quiet)
+        let live_end = sched::threads().iter().filter(|(n, st)| n.starts_with("task_pool.rs") && !matches!(st, TState::Finished)).count();
+        (left, blocked, quiet, live_end)
     });
     let h = hist.lock().unwrap();
+    if pool_view {
+        // which connections (in connect order = producer order is not known from outside: count) had all
+        // their requests delivered
+        let delivered: std::collections::HashSet<String> = h.iter().flatten().filter_map(|r| r.rsplit(':').next().map(|x| x.to_string())).collect();
+        let started: Vec<String> = sc
+            .prods
+            .iter()
+            .filter(|p| p.iter().any(|o| matches!(o, POp::Push(_))))
+            .map(|p| {
+                let all = p.iter().all(|o| match o {
+                    POp::Push(v) => delivered.contains(&v.to_string()) || left.contains(&v.to_string()),
+                    _ => true,
+                });
+                if all { "ok".to_string() } else { "never".to_string() }
+            })
+            .collect();
+        return format!(
+            "pool id={} anon=1 burst={} seed={} ptimer={} | labels={} started={} live_end={} quiet={} aborted={} clock={}",
+            id,
+            if burst { 1 } else { 0 },
+            cfg.seed,
+            cfg.p_timer,
+            pool_labels(&rep),
+            started.join(","),
+            live_end,
+            if quiet { 1 } else { 0 },
+            if rep.aborted { 1 } else { 0 },
+            rep.clock
+        );
+    }
     let labels = ctl_queue::map_labels(&rep);
     format!(
         "queue id={} anon=1 burst={} seed={} ptimer={} prods={} cons={} | labels={} hist={} left={} blocked={} quiet={} aborted={} clock={}",
